@@ -584,3 +584,36 @@ PROPS["C01"]["explanation"] += (" planned_roundtrip (DM/Props/C01Planner.lean): 
 # reported, with `no-failing-input-found` unless the oracle sweep also finds an input that now needs a larger symbol)
 PROPS["C10"]["gens"] = list(PROPS["C10"]["gens"]) + ["c18m"]
 PROPS["C10"]["explanation"] += _PLANNER_NOTE
+# search mode of C10 (only when the planner correspondence is broken and the sweep found no failing input):
+# gen c10d, judged by the planner model run with its own sort (driver request optdiff, DM/Model/PlannerAuto.lean)
+PROPS["C10"]["search_gens"] = ["c10d"]
+PROPS["C10"]["explanation"] += (" Search mode: when the planner correspondence is broken and the sweep has found no input that now needs a larger symbol, 600 000 (thorough: 2 000 000) further short and medium messages"
+    " are planned by the implementation and by the planner model run with its own stable sort (DM/Model/PlannerAuto.lean); where the model's plan, written by the encoder model and confirmed by the reference decoder,"
+    " needs a smaller symbol than the implementation used (or the implementation refused), the input is reported with that stream as the witness. The inputs of this generator on which the pinned planner itself loses"
+    " against the model's tie-breaking are listed as known findings (K-C*).")
+
+# planned corollaries (session 4): the plan is the planner model's answer, the encoder's success is a conclusion
+for _p in ("C18", "C11"):
+    PROPS[_p]["lean"] = list(PROPS[_p]["lean"]) + ["DM.Lemmas.CoupleGate", "DM.Lemmas.PlannedRun"]
+    PROPS[_p]["explanation"] += (" gate_prediction_none (DM/Lemmas/CoupleGate.lean): every character costs at least 6 twelfths in every mode, so a message longer than max_capacity() has a predicted cost that fits no listed symbol -"
+        " the early exit of codewords() is the 'TooMuch and nothing predicted' case; predicted_size_suffices_gate (DM/Lemmas/PlannedRun.lean) is the resulting three-case form: SymbolListEmpty on the empty list, success within the predicted symbol, or TooMuch with a prediction that fits nothing.")
+PROPS["C16"]["lean"] = list(PROPS["C16"]["lean"]) + ["DM.Props.C16Planner"]
+PROPS["C16"]["explanation"] += (" planned_message_roundtrip / planned_macro05_lossless / planned_macro06_lossless / planned_gs1_roundtrip (DM/Props/C16Planner.lean): with the plan the planner model returns for the body behind the header codeword"
+    " (inside the two decidable side conditions planOK and planOKEb) and a prediction that fits, the encoder model succeeds in a symbol no larger than predicted and the decoder model re-creates the whole message, header and trailer included;"
+    " macroPrefix_ok_cases classifies every answer of the prefix model (no header, 232, 236 with a Macro 05 envelope, 237 with a Macro 06 envelope - the converse direction for Macro 06 included).")
+PROPS["C16"]["level_text"] = ("Partial proof: decision logic of macro compaction / FNC1 start for all messages; losslessness as a composition of planner, encoder and decoder models - on the planner model's own plan (inside the decidable side conditions"
+    " planOK / planOKEb, evaluated on every plan of the sweep) the encoder model succeeds and the decoder model re-creates the enveloped message: theorems about the models, tied by correspondence; plans outside the side conditions: oracle sweep.")
+PROPS["C14"]["lean"] = list(PROPS["C14"]["lean"]) + ["DM.Props.C14Planner"]
+PROPS["C14"]["explanation"] += (" planned_encode_str_roundtrip, planned_latin1_string_roundtrip, planned_utf8_string_roundtrip, planned_eci_string_decode (DM/Props/C14Planner.lean): the same composition for the string API - whichever branch encode_str takes,"
+    " with the planner model's plan for the bytes behind the prefix (none, or 241,27) inside the side conditions and a prediction that fits, the encoder model succeeds within the predicted symbol and the string decoder model returns the string's code points.")
+
+# C13, second clause (session 4): every character is carried by an enabled mode or by the end-of-data ASCII fallback
+PROPS["C13"]["lean"] = list(PROPS["C13"]["lean"]) + ["DM.Props.C13TailEnc", "DM.Props.C13TailRun", "DM.Props.C13Tail"]
+PROPS["C13"]["explanation"] += (" tail_clause (DM/Props/C13Tail.lean, with C13TailDefs / C13TailEnc / C13TailRun): an instrumented copy of the main loop records (start, end, mode) of every call of a mode encoder and is the same run (traceLoop_fst);"
+    " for the planner model's own plan (any message, prefix, list, mode set; inside the decidable side condition planOK) and a successful run there is a position q with at most four characters behind it such that the recorded calls tile the message,"
+    " every call in front of q runs in the mode the plan assigns to its characters and that mode is enabled, and the characters from q on - at most 2 after C40/Text/X12, at most 4 after EDIFACT, none after ASCII/Base 256 (encodeMode_tail, for every plan) -"
+    " are written by one ASCII call after set_ascii_until_end, which only follows a segment of an enabled C40/Text/X12/EDIFACT mode. Non-vacuity: X12 only, 'ABCD' -> X12 for 'ABC', ASCII fallback for 'D'.")
+PROPS["C13"]["level_text"] = ("Partial proof: both clauses are theorems about the models - no latch into a mode the plan does not name and no latch codeword inside an ASCII segment (plans within the round-trip side condition), the plan names only enabled modes (all inputs),"
+    " and every character is carried by the enabled mode the plan assigns to it or, for at most the last four characters after a C40/Text/X12/EDIFACT segment, by the end-of-data ASCII fallback (tail_clause: planner model's own plan, all inputs and configurations,"
+    " inside the decidable side condition planOK evaluated on every plan of the sweep); outside the side conditions: reference decoder's mode trace as oracle.")
+PROPS["C13"]["unproved"] = ["latches_planned for plans that use EDIFACT before the final stretch or latch into a non-ASCII mode within the last four characters; tail_clause without the side condition planOK"]
